@@ -84,6 +84,8 @@ class Kernel:
         self.counters = {}
         self.mut_locals = set()
         self.resizes = []
+        self.counter_dirty = set()      # counters updated since their `let` (their value is no longer the literal they were initialised with)
+        self.counter_depth = {}         # counter -> loop nesting depth of its `let`
         env = {}
         self.block(body, env)
 
@@ -155,6 +157,8 @@ class Kernel:
             if p[0] == "pident" and p[3] and isinstance(v, tuple) and v[0] == "int":
                 self.counters[p[1]] = v[1]
                 env[p[1]] = ("counter", p[1], v[1])
+                self.counter_dirty.discard(p[1])
+                self.counter_depth[p[1]] = len(self.loops)
             return None
         if k == "expr":
             v = self.expr(st[1], env)
@@ -168,7 +172,82 @@ class Kernel:
         return v
 
     def emit(self, target, value, kind="write"):
+        if kind == "counter" and isinstance(target, tuple) and len(target) > 1:
+            self.counter_dirty.add(target[1])
         self.effects.append(Eff(target, value, self.loops, self.conds, kind))
+
+    def counted_while(self, e, env):
+        """`let mut c = K; while c < hi { BODY; c += 1 }` is the counted loop `for c in K..hi { BODY }` when c still holds K at the loop (not updated since its
+        `let`, declared at the same loop depth), BODY neither assigns / borrows mutably / shadows c nor leaves the loop early (break / continue / return / `?`),
+        and hi does not mention c and is invariant in BODY (no local it reads is updated, no object whose extent it reads is resized or replaced).
+        Then the loop is evaluated exactly as that `for` loop (same `range` loop descriptor, c bound to the iteration variable) and True is returned.
+        In every other case nothing is changed and False is returned (the caller keeps the opaque `while` descriptor and the counter effect)."""
+        cond, body = e[1], e[2]
+        while is_node(cond) and cond[0] == "paren":
+            cond = cond[1]
+        if not (is_node(cond) and cond[0] == "bin" and cond[1] in ("<", "<=", ">", ">=")) or not body:
+            return False
+        op, a, b = cond[1], cond[2], cond[3]
+        if op in (">", ">="):
+            op, a, b = {">": "<", ">=": "<="}[op], b, a
+        while is_node(a) and a[0] in ("paren", "cast"):
+            a = a[1]
+        c = path_of(a)
+        cv = env.get(c) if c else None
+        if not (isinstance(cv, tuple) and cv[0] == "counter" and cv[1] == c and c not in self.counter_dirty and self.counter_depth.get(c) == len(self.loops)):
+            return False
+        if any(x[1] == c for x in _find(b, "path")):
+            return False
+        last, rest = body[-1], body[:-1]
+        if not (last[0] == "expr" and _is_increment(last[1], c)):
+            return False
+        for n in _walk(rest):
+            if n[0] in ("break", "continue", "ret", "try", "closure"):
+                return False
+            if n[0] == "bin" and n[1].endswith("=") and n[1] not in ("==", "!=", "<=", ">=") and path_of(n[2]) == c:
+                return False
+            if n[0] == "assign" and path_of(n[1]) == c:
+                return False
+            if n[0] in ("ref", "rawaddr") and n[1] and path_of(n[2]) == c:
+                return False
+            if n[0] == "pident" and n[1] == c:
+                return False
+            if n[0] == "macro" and re.search(r"\b%s\b" % re.escape(c), str(n[2])):
+                return False
+        snap = (len(self.effects), self.nvar, dict(self.counters), set(self.mut_locals), len(self.resizes), set(self.counter_dirty), dict(self.counter_depth))
+
+        def restore():
+            del self.effects[snap[0]:]
+            self.nvar, self.counters, self.mut_locals = snap[1], snap[2], snap[3]
+            del self.resizes[snap[4]:]
+            self.counter_dirty, self.counter_depth = snap[5], snap[6]
+        depth = len(self.loops)
+        try:
+            hi = self.expr(b, env)
+            v = self.fresh("i")
+            self.loops.append(("range", v, ("int", cv[2]), hi, op == "<="))
+            env2 = dict(env)
+            env2[c] = v
+            self.block(rest, env2)
+        except Unrecognised:
+            del self.loops[depth:]
+            restore()
+            return False
+        del self.loops[depth:]
+        read_locals = {x[1] for x in _find(b, "path")}
+        read_roots = roots_in(hi)
+        for eff in self.effects[snap[0]:]:
+            tg = eff.target
+            if eff.kind in ("local", "counter") and isinstance(tg, tuple) and len(tg) > 1 and tg[1] in read_locals:
+                restore()
+                return False
+            if isinstance(tg, tuple) and tg and tg[0] != "elem" and root_of(tg) in read_roots:
+                restore()
+                return False
+        # after the loop c holds the bound (or K when the loop never ran): an ordinary value, no longer the literal
+        env[c] = ("op", "max", ("int", cv[2]), hi if op == "<" else ("op", "+", hi, ("int", 1)))
+        self.counter_dirty.add(c)
+        return True
 
     def iter_items(self, e, env):
         """evaluate an iterator expression; returns (loop descriptor, item value)"""
@@ -361,6 +440,8 @@ class Kernel:
             self.emit((t,), ("unit",), kind=t)
             return ("unit",)
         if t == "while":
+            if self.counted_while(e, env):
+                return ("unit",)
             c = self.expr(e[1], env)
             self.loops.append(("while", self.fresh("w"), c))
             self.block(e[2], env)
@@ -496,6 +577,39 @@ class Kernel:
                 else:
                     self.emit(("whole", a), ("call", m, recv, args), kind="inplace")
         return ("call", m, recv, args)
+
+
+def _walk(n):
+    """every AST node below n (n may be a node or a list of statements)"""
+    st = [n]
+    while st:
+        x = st.pop()
+        if isinstance(x, list):
+            if x and isinstance(x[0], str):
+                yield x
+            for y in reversed(x):
+                if isinstance(y, list):
+                    st.append(y)
+
+
+def _find(n, tag):
+    return (x for x in _walk(n) if x[0] == tag)
+
+
+def _is_increment(e, c):
+    """`c += 1`, `c = c + 1`, `c = 1 + c`"""
+    def one(x):
+        return is_node(x) and x[0] == "int" and re.match(r"1(_?[ui](8|16|32|64|128|size))?$", str(x[1])) is not None
+    if not is_node(e):
+        return False
+    if e[0] == "bin" and e[1] == "+=" and path_of(e[2]) == c and one(e[3]):
+        return True
+    if e[0] == "assign" and path_of(e[1]) == c:
+        r = e[2]
+        while is_node(r) and r[0] == "paren":
+            r = r[1]
+        return is_node(r) and r[0] == "bin" and r[1] == "+" and ((path_of(r[2]) == c and one(r[3])) or (path_of(r[3]) == c and one(r[2])))
+    return False
 
 
 def _pat_idents(p):
